@@ -16,3 +16,16 @@ func pptOptionsToDetails(options wamp.Dict, details wamp.Dict) {
 		details[wamp.OptPPTKeyId] = val
 	}
 }
+
+// protocolViolationGoodbye returns the GOODBYE used to end a session that
+// violated the protocol. The session is ended through its message handler
+// (see wamp.Session.EndRecv), so that the handler removes the session from the
+// realm and closes the peer exactly once. Closing the peer directly, while the
+// handler is still running, leads to sending on and closing of a closed
+// channel.
+func protocolViolationGoodbye() *wamp.Goodbye {
+	return &wamp.Goodbye{
+		Reason:  wamp.ErrProtocolViolation,
+		Details: wamp.Dict{},
+	}
+}
